@@ -443,8 +443,14 @@ def _truediv(a, b):
     return sv.div(a, b)
 
 
+def _op_dtype(x):
+    return x.dtype if isinstance(x, (Arr, Masked)) else as_operand(x)[2]
+
+
 def binop(op, a, b):
     if op == "+":
+        if _op_dtype(a) == "bool" and _op_dtype(b) == "bool" and (isinstance(a, (Arr, Masked)) or isinstance(b, (Arr, Masked))):
+            return ew(sv.or_, a, b, dtype="bool")        # numpy: + on boolean arrays is the logical or
         return ew(sv.add, a, b)
     if op == "-":
         return ew(sv.sub, a, b)
@@ -464,13 +470,17 @@ def binop(op, a, b):
     if op == "%":
         return ew(sv.mod, a, b)
     if op == "**":
+        eb = norm(b) if sv.is_scalar(b) else None
+        if _op_dtype(a) in ("int", "bool") and isinstance(eb, int) and not isinstance(eb, bool) and eb < 0:
+            # numpy: ValueError "Integers to negative integer powers are not allowed"
+            raise EngineError("integer array to a negative integer power")
         return ew(sv.power, a, b)
     if op in ("<", "<=", ">", ">=", "==", "!="):
         return ew(lambda x, y: sv.cmp(op, x, y), a, b, dtype="bool")
-    if op == "&":
-        return ew(sv.and_, a, b, dtype="bool")
-    if op == "|":
-        return ew(sv.or_, a, b, dtype="bool")
+    if op in ("&", "|"):
+        if _op_dtype(a) != "bool" or _op_dtype(b) != "bool":
+            raise EngineError(f"bitwise {op} on non-boolean arrays")       # only the logical reading (boolean masks) is modelled
+        return ew(sv.and_ if op == "&" else sv.or_, a, b, dtype="bool")
     raise EngineError(f"array operator {op}")
 
 
@@ -490,6 +500,10 @@ def copy(a):
 def astype(a, dt):
     dt = norm_dtype(dt)
     r = a.reader()
+    if dt == "float" and a.dtype == "complex":
+        # numpy: the imaginary part is discarded (ComplexWarning)
+        cur().trace.append(("warning", "ComplexWarning", cur().where))
+        return new_arr(a.shape, lambda idx: _cast(sv.re(r(idx)), dt), dt)
     return new_arr(a.shape, lambda idx: _cast(r(idx), dt), dt)
 
 
@@ -602,6 +616,8 @@ SYMBOLIC_MINMAX = [None]     # hook: contract of min/max over a symbolic axis (r
 def _norm_index(i, n, what="index-bounds"):
     """python/numpy integer index -> nonneg index, with the bounds side obligation"""
     i = norm(i)
+    if isinstance(i, Fraction):
+        raise EngineError("float used as index")
     if is_conc(i):
         i = int(i)
         if i < 0:
@@ -806,6 +822,9 @@ def _fancy(a, keys):
     for _, k in arrs:
         if k.dtype == "bool":
             raise EngineError("boolean array in tuple index")
+        if k.dtype in ("float", "complex"):
+            # numpy: IndexError "arrays used as indices must be of integer (or boolean) type"
+            raise EngineError("float array used as index")
     first = arrs[0][0]
     pos = [i for i, _ in arrs]
     if pos != list(range(pos[0], pos[0] + len(pos))):
@@ -876,11 +895,53 @@ def _require_all_in_range(reader, ishape, n):
 # stores
 
 
+def mark_named(v, depth=0):
+    """record that the array cell(s) of a value are now reachable through a name / attribute / container / parameter: a view of
+    such an array must stay connected to it (see view_result)"""
+    st = cur()
+    if isinstance(v, Arr):
+        st.named.add(v.sid)
+    elif isinstance(v, (tuple, list)) and depth < 3:
+        for x in v:
+            mark_named(x, depth + 1)
+    elif getattr(v, "kind", None) in ("list", "dict") and hasattr(v, "content") and depth < 3:
+        c = v.content
+        if isinstance(c, dict):
+            for x in c.values():
+                mark_named(x, depth + 1)
+        elif isinstance(c, tuple):
+            for x in c:
+                mark_named(x, depth + 1)
+
+
+def is_temporary(a):
+    """the array is an expression result that nothing else refers to (so that whether numpy hands out a view or a copy of it cannot be observed)"""
+    st = cur()
+    c = st.heap.get(a.sid)
+    # allocated while evaluating the CURRENT statement and never bound since (cells from earlier statements, loop summaries, inputs
+    # and defaults are not temporaries, whatever else is known about them)
+    return a.sid > getattr(st, "stmt_mark", 1 << 62) and a.sid not in st.named and a.sid not in st.origin \
+        and not (c is not None and c.meta.get("input"))
+
+
+def _check_storable(a):
+    """results of operations for which numpy may return a VIEW of the argument while the model allocates a fresh array (reshape /
+    ravel of a contiguous array, .real / .imag of a complex array) carry meta `nostore`: a store through them would miss the
+    argument, so it is outside the model (UNDECIDED), never silently performed on the copy"""
+    why = cur().heap[a.sid].meta.get("nostore")
+    if why:
+        raise EngineError(f"store through the result of {why}: numpy may return a view of the argument there, the model a fresh array")
+
+
 def setitem(a, key, value, aug=None):
     """a[key] = value   (aug: None or binary op name for a[key] op= value)"""
     st = cur()
     if a.is_readonly():
         raise ReadOnlyStore(f"store into read-only array #{a.sid}")
+    _check_storable(a)
+    if (isinstance(key, Arr) and key.dtype != "bool" and key.shape != ()) or isinstance(key, list) or \
+            (isinstance(key, tuple) and any((isinstance(k, Arr) and k.dtype != "bool" and k.shape != ()) or isinstance(k, list) for k in key)):
+        return _fancy_store(a, key, value, aug)
     if isinstance(key, Arr) and key.dtype == "bool":
         return _mask_store(a, key, value, aug)
     if isinstance(key, tuple) and len(key) >= 2 and isinstance(key[0], Arr) and key[0].dtype == "bool" and key[0].ndim == 1 \
@@ -951,8 +1012,57 @@ def setitem(a, key, value, aug=None):
             v = vreader(vmap(tuple(vidx)))
             if aug:
                 v = scalar_binop(aug, old(idx), v)
-            return _cast(v, dt) if dt in ("float", "int", "complex", "bool") else v
+            v = _cast(v, dt) if dt in ("float", "int", "complex", "bool") else v
+            if isinstance(v, Cx) and dt == "float":
+                v = v.re        # numpy: a complex ARRAY stored into a float array keeps the real parts (ComplexWarning)
+            return v
         return ite(inside, newval, lambda: old(idx))
+    if vdt == "complex" and dt in ("int", "bool"):
+        raise EngineError("complex values stored into an integer array")
+    if vdt == "complex" and dt == "float":
+        if not isinstance(value, Arr):
+            raise EngineError("complex stored into float array")
+        st.trace.append(("warning", "ComplexWarning", st.where))
+    _replace(a.sid, fn)
+
+
+def _fancy_store(a, key, value, aug):
+    """a[idx] = value / a[idx] op= value for ONE 1-D integer index array of concrete length on axis 0 (the other axes whole): the rows
+    idx[0], idx[1], ... receive value[0], value[1], ... in that order (a repeated row keeps the last one); the augmented form reads the
+    OLD rows (numpy evaluates a[idx] op value first, then stores: a repeated row is updated once).  Everything else is outside the model."""
+    st = cur()
+    if isinstance(key, list):
+        key = from_nested(key)
+    if not isinstance(key, Arr) or key.ndim != 1 or not dim_conc(key.shape[0]) or key.dtype not in ("int",) or a.view is not None:
+        raise EngineError("store through an integer index array (only a[idx] = v with one 1-D index array on the first axis is modelled)")
+    m, n = key.shape[0], a.shape[0]
+    kr = key.reader()
+    rows = [norm(kr((k,))) for k in range(m)]
+    for r_ in rows:
+        cur().require(sv.and_(sv.cmp(">=", r_, 0), sv.cmp("<", r_, n)), "fancy-index-bounds")
+    rest = tuple(a.shape[1:])
+    vshape, vreader, vdt = as_operand(value)
+    tshape = (m,) + rest
+    if len(vshape) > len(tshape):
+        raise EngineError("store value rank exceeds target")
+    off = len(tshape) - len(vshape)
+    for k, d in enumerate(vshape):
+        if not (dim_conc(d) and d == 1):
+            require_dim_eq(d, tshape[k + off], "store-shape")
+    vmap = _bidx(vshape, len(tshape))
+    old = st.heap[a.sid].data
+    dt = a.dtype
+
+    def fn(idx, old=old):
+        out = lambda: old(idx)
+        for k in range(m):
+            def val(k=k):
+                v = vreader(vmap((k,) + tuple(idx[1:])))
+                if aug:
+                    v = scalar_binop(aug, old(idx), v)
+                return _cast(v, dt) if dt in ("float", "int", "complex", "bool") else v
+            out = (lambda k=k, val=val, nxt=out: ite(sv.cmp("==", idx[0], rows[k]), val, nxt))
+        return out()
     _replace(a.sid, fn)
 
 
@@ -1050,6 +1160,7 @@ def inplace(a, op, value):
     """a op= value on an array target (whole array)"""
     if a.is_readonly():
         raise ReadOnlyStore(f"in-place {op}= on read-only array #{a.sid}")
+    _check_storable(a)
     cur_reader = a.reader()
     vshape, vreader, vdt = as_operand(value)
     shape = a.shape
@@ -1097,6 +1208,14 @@ def _masked_conv(v):
     return v
 
 
+def _typed(v, dt, shape=()):
+    """a concrete integer result of a reduction over float / complex data of CONCRETE shape (empty range: the neutral element) in the
+    result's class; results over symbolic axes are left exactly as they are (term shapes matter to the solvers)"""
+    if isinstance(v, int) and not isinstance(v, bool) and dt in ("float", "complex") and all(dim_conc(d) for d in shape):
+        return Fraction(v) if dt == "float" else Cx(Fraction(v), Fraction(0))
+    return v
+
+
 def reduce_sum(a, axis=None):
     if isinstance(a, Masked):
         src, mask, rest = a.src, a.mask, tuple(a.rest)
@@ -1108,10 +1227,10 @@ def reduce_sum(a, axis=None):
                 if k == len(rest):
                     return _masked_conv(src((t,) + tuple(prefix)))
                 return Sum(0, rest[k], lambda u: total(t, prefix + [u], k + 1))
-            return Sum(0, a.n, lambda t: ite(mask(t), lambda: total(t, [], 0), 0))
+            return _typed(Sum(0, a.n, lambda t: ite(mask(t), lambda: total(t, [], 0), 0)), dt, (a.n,) + rest)
         if axis == 0:
             def fn0(idx):
-                return Sum(0, a.n, lambda t: ite(mask(t), lambda: _masked_conv(src((t,) + tuple(idx))), 0))
+                return _typed(Sum(0, a.n, lambda t: ite(mask(t), lambda: _masked_conv(src((t,) + tuple(idx))), 0)), dt, (a.n,) + rest)
             return fn0(()) if rest == () else new_arr(rest, fn0, dt)
         k = axis - 1
         new_rest = rest[:k] + rest[k + 1:]
@@ -1132,7 +1251,7 @@ def reduce_sum(a, axis=None):
             if k == len(shape):
                 return conv(r(tuple(prefix)))
             return _axis_len_sum(shape[k], lambda t: total(prefix + [t], k + 1))
-        return total([], 0)
+        return _typed(total([], 0), dt, shape)
     if isinstance(axis, tuple):
         out = a
         for ax in sorted([x % len(shape) for x in axis], reverse=True):
@@ -1143,7 +1262,7 @@ def reduce_sum(a, axis=None):
     n = shape[axis]
 
     def fn(idx):
-        return _axis_len_sum(n, lambda t: conv(r(tuple(idx[:axis]) + (t,) + tuple(idx[axis:]))))
+        return _typed(_axis_len_sum(n, lambda t: conv(r(tuple(idx[:axis]) + (t,) + tuple(idx[axis:])))), dt, shape)
     if out_shape == ():
         return fn(())
     return new_arr(out_shape, fn, dt)
@@ -1161,7 +1280,7 @@ def reduce_prod(a, axis=None):
         acc = 1
         for idx in itertools.product(*[range(d) for d in shape]):
             acc = sv.mul(acc, r(idx))
-        return acc
+        return _typed(acc, a.dtype, shape)
     axis = int(axis) % len(shape)
     if not dim_conc(shape[axis]):
         raise EngineError("product over symbolic axis")
